@@ -12,7 +12,7 @@ From Soy Require Import Proofs.SourceTieMsg Proofs.SourceTiePo.
 From Soy Require Import Proofs.MsgIdProofs.
 From Soy Require Import Model.Bytes Model.Outcome Model.Num Model.Values Model.Ast Model.MsgId
   Model.Escape Model.Interp Model.MsgParts Spec.MsgCat Proofs.MsgPartsProofs Proofs.InterpRelProofs Proofs.InterpPosProofs Proofs.MsgCatProofs
-  Proofs.MsgPluralProofs Model.PoFile Proofs.PoFileProofs.
+  Proofs.MsgPluralProofs Model.PoFile Proofs.PoFileProofs Model.JsGen Proofs.MsgJsProofs.
 Open Scope N_scope.
 
 (* ------------------------------------------------------------------ *)
@@ -176,6 +176,49 @@ Theorem C11_plural_places_values : forall plural_index bd w mp id p vn pv pc cv 
    end) st.
 Proof. exact plural_places_values. Qed.
 Print Assumptions C11_plural_places_values.
+
+(* ------------------------------------------------------------------ *)
+(* the JavaScript backend: what soyjs generates for a translated message *)
+(* ------------------------------------------------------------------ *)
+
+(* soyjs resolves the catalogue when it GENERATES code (Model/JsGen.v visit_msg / jeval_parts).  For every
+   generator-walker w: the code for a flat message with a catalogue entry is, in the translation's order, an
+   append statement for every text segment ([write_raw_text]) and the code of the first placeholder of the
+   message carrying the slot's name -- [jrun_items w] over the SAME resolved item list
+   [map (resolve body) tr] over which soyhtml runs [run_items] (C11_translation_places_values).  So the two
+   backends agree on which text and which placeholder code stands where, as a theorem; that the JavaScript
+   generated for a placeholder's code computes what soyhtml prints for it is C04's theorem where C04 covers
+   the code (C04_gen_correct_partial_stmt: raw text, print with directives, ...) and correspondence elsewhere. *)
+Theorem C11_js_translation_places_values : forall o w id body tr msgs,
+  forallb flat_node body = true -> items_named body tr ->
+  parts_clean (map item_part tr) ->
+  o_msgs o = Some msgs -> assoc_n id msgs = Some (jparts_of_cmsg (new_message [] [msgstr_of tr])) ->
+  visit_msg o w id body = jrun_items w (map (resolve body) tr).
+Proof. exact js_translation_places_values. Qed.
+Print Assumptions C11_js_translation_places_values.
+
+(* a PO plural: `switch (soy.$$pluralIndex(<value>))` with one case per msgstr, case i holding the items of
+   form i (any number of forms; the selector is the embedding page's soy.$$pluralIndex) *)
+Theorem C11_js_plural_places_values : forall o w id p vn pv pc cv cb dflt (trs : list (list titem)) msgs,
+  vn <> [] \/ length trs <> 1%nat ->
+  forallb flat_node cb = true -> forallb flat_node dflt = true ->
+  Forall (fun tr => items_named (dflt ++ cb) tr /\ parts_clean (map item_part tr)) trs ->
+  o_msgs o = Some msgs ->
+  assoc_n id msgs = Some (jparts_of_cmsg (new_message vn (map msgstr_of trs))) ->
+  visit_msg o w id [NMsgPlural p vn pv [NMsgPluralCase pc cv cb] dflt] =
+  (jindent ;;; jtxt t_plural_open ;;; w pv ;;; jemit [CText t_plural_close; CText t_nl] ;;;
+   indent_inc ;;;
+   jplural_cases 0 (map (fun tr => jrun_items w (map (resolve (dflt ++ cb)) tr)) trs) ;;;
+   indent_dec ;;; jsln [CText t_rbrace]) ;;; jret tt.
+Proof. exact js_plural_places_values. Qed.
+Print Assumptions C11_js_plural_places_values.
+
+(* no bundle, or no entry: the source is generated *)
+Theorem C11_js_missing_falls_back : forall o w id body,
+  o_msgs o = None \/ (exists msgs, o_msgs o = Some msgs /\ assoc_n id msgs = None) ->
+  visit_msg o w id body = jmsg_children w (msg_size body) body.
+Proof. exact js_missing_falls_back. Qed.
+Print Assumptions C11_js_missing_falls_back.
 
 (* ------------------------------------------------------------------ *)
 (* whole program: the identity (and any partial identity) catalogue     *)
